@@ -814,8 +814,8 @@ Proof.
     destruct (String.eqb _ "notary.x509.signingAuthority"); [|reflexivity].
     destruct (ast (PNew (EnvelopeContent_SignerInfo C env))); reflexivity. }
   destruct (ptr_val (verifier_revocationCodeSigningValidator C PM v)) as [f|] eqn:EF;
-    [|destruct (ptr_val (verifier_revocationClient C PM v)) as [g|] eqn:EG]; cbn [is_none andb negb].
-  3:{ eexists. split; [reflexivity|]. cbn. repeat split; try discriminate.
+    destruct (ptr_val (verifier_revocationClient C PM v)) as [g|] eqn:EG; cbn [is_none andb negb].
+  4:{ eexists. split; [reflexivity|]. cbn. repeat split; try discriminate.
       intros (rs & H & _). discriminate. }
   all: rewrite T; clear T.
   all: match goal with |- context [let '(a, b) := ?x in _] => destruct x as [results e] eqn:ANS end.
@@ -878,7 +878,8 @@ Proof.
     destruct (String.eqb (SignedAttributes_SigningScheme (SignerInfo_SignedAttributes C si)) "notary.x509.signingAuthority");
       (match goal with |- context [vsig (PNew ?r)] => exists r; destruct (vsig (PNew r)) as [resp e] end;
        unfold exec_post; cbn [fst snd];
-       destruct (is_none e && ptr_is_nil resp); eexists; (split; [reflexivity|]);
+       destruct e as [e|], resp as [|nm rv|rv]; cbn [is_none ptr_is_nil andb orb negb];
+       eexists; (split; [reflexivity|]);
        cbn [fst snd map VerifySignatureRequest_TrustPolicy VerifySignatureRequest_Signature VerifySignatureRequest_PluginConfig
             TrustPolicy_SignatureVerification TrustPolicy_TrustedIdentities Signature_UnprocessedAttributes];
        rewrite ?app_nil_r; repeat split; try reflexivity; discriminate).
